@@ -99,6 +99,11 @@ func PriceActive(e *sim.Env, asset uint64, active bool) {
 	e.App.MarketKeeper.SetTwa(e.Ctx, twa)
 }
 
+// PriceMissing removes the TWA record of the asset altogether.
+func PriceMissing(e *sim.Env, asset uint64) {
+	e.App.MarketKeeper.Store(e.Ctx).Delete(markettypes.TwaKey(asset))
+}
+
 func (f *Fix) addApp(name, short string, gov uint64, recipient sdk.AccAddress) uint64 {
 	e := f.E
 	gt := []assettypes.MintGenesisToken{}
@@ -294,6 +299,9 @@ func (f *Fix) lendSetup() {
 		EnableStableBorrow: false, StableBase: d("0"), StableSlope1: d("0"), StableSlope2: d("0"), Ltv: d("0.5"), LiquidationThreshold: d("0.55"),
 		LiquidationPenalty: d("0.05"), LiquidationBonus: d("0.05"), ReserveFactor: d("0.2"), CAssetID: f.CCMDX,
 		ModuleName: "cmdx", CPoolName: "CMDX-CMST-ATOM", AssetData: assetData, MinUsdValueLeft: 100000, IsIsolated: false}))
+	// V1 lend auctions (started by the V1 borrow liquidation paths) need their own parameters
+	must(k.AddAuctionParamsData(e.Ctx, lendtypes.AuctionParams{AppId: f.AppCommodo, AuctionDurationSeconds: 21600, Buffer: d("1.2"), Cusp: d("0.7"),
+		Step: i(360), PriceFunctionType: 1, DutchId: 3, BidDurationSeconds: 3600}))
 	pools := k.GetPools(e.Ctx)
 	f.Pool = pools[len(pools)-1].PoolID
 	for _, p := range k.GetLendPairs(e.Ctx) {
